@@ -418,14 +418,25 @@ Qed.
 (* insert_columns checks the cells' dimension only: descriptors whose shifted end stays on the grid
    keep the layout well-formed ... *)
 Theorem insert_columns_descrs_partial column count cs cs' :
-  Cols.wf cs -> 1 <= column ->
+  Cols.wf cs ->
   (forall c, In c cs -> column <= Cols.c_max c -> Cols.c_max c + count <= LAST_COLUMN) ->
   insert_columns_descrs column count cs = Ok cs' -> Cols.wf cs'.
 Proof.
-  unfold insert_columns_descrs, Cols.wf. intros H Hcol Hfit E.
-  destruct (count <=? 0) eqn:E1; [discriminate|]. inversion E; subst cs'. zb.
+  unfold insert_columns_descrs, Cols.wf. intros H Hfit E.
+  destruct (count <=? 0) eqn:E1; [discriminate|].
+  destruct (negb ((1 <=? column) && (column <=? LAST_COLUMN))) eqn:E2; [discriminate|].
+  inversion E; subst cs'. apply negb_false_iff, andb_true_iff in E2 as [E2 _]. zb.
   replace 0 with (ishift column count 0) at 1 by (unfold ishift; ifs; zb; lia).
   apply ins_descrs_wf; [lia | exact H | exact Hfit].
+Qed.
+
+(* a call with an index outside the grid is refused (3e01966) *)
+Theorem insert_columns_descrs_refused column count cs :
+  column < 1 \/ LAST_COLUMN < column \/ count <= 0 -> insert_columns_descrs column count cs = Err.
+Proof.
+  intros H. unfold insert_columns_descrs. destruct (count <=? 0) eqn:E1; [reflexivity|].
+  destruct (negb ((1 <=? column) && (column <=? LAST_COLUMN))) eqn:E2; [reflexivity|].
+  apply negb_false_iff, andb_true_iff in E2 as [E2 E3]. zb. lia.
 Qed.
 
 (* ... and a descriptor on the last column is pushed off the grid *)
